@@ -187,10 +187,20 @@ func (r *Reader) Info() (*Info, error) {
 	if r.rs == nil {
 		return nil, fmt.Errorf("cannot get info from non-seekable reader")
 	}
+	// Reading the summary moves the stream the message iterators share. Put it back, so that
+	// an iterator that scans the file (no usable index, or UsingIndex(false)) and is created
+	// or resumed after this call continues from where the reader stood.
+	pos, err := r.rs.Seek(0, io.SeekCurrent)
+	if err != nil {
+		return nil, fmt.Errorf("failed to get current stream position: %w", err)
+	}
 	it := r.indexedMessageIterator(&ReadOptions{
 		UseIndex: true,
 	})
-	err := it.parseSummarySection()
+	err = it.parseSummarySection()
+	if _, seekErr := r.rs.Seek(pos, io.SeekStart); seekErr != nil && err == nil {
+		err = fmt.Errorf("failed to restore stream position: %w", seekErr)
+	}
 	if err != nil {
 		return nil, err
 	}
